@@ -61,33 +61,47 @@ def indexKey (name tag : Bytes) : Option Bytes :=
     else if p = sDash then (if opts.isEmpty then none else some sDash)
     else some p
 
-/-- one pass of the loop of `indexType` (from the last field to the first; a later assignment to the
-same key wins); `sub` indexes the type of an embedded field, `none` = panic -/
-def indexPass (sub : GoType → Option (List (Bytes × IdxEntry))) :
-    List (FieldHdr × GoType) → Nat → Option (List (Bytes × IdxEntry))
-  | [], _ => some []
-  | (h, t) :: rest, i =>
-    match indexPass sub rest (i + 1) with
-    | none => none
-    | some later =>
-      if unexported h.name then some later               -- `0 < len(f.PkgPath)`
-      else if h.embedded then
-        match sub t with
-        | none => none
-        | some fim => some (fim.foldl (fun im kf => kvInsert kf.1 { kf.2 with index := i :: kf.2.index } im) later)
-      else if !h.tag.isEmpty then
-        match indexKey h.name h.tag with
-        | none => some later
-        | some k => some (kvInsert k ⟨h.name, [i], h.tag⟩ later)
-      else some (kvInsert h.name ⟨h.name, [i], h.tag⟩ later)
+/-- an embedded field's entries, filed under the outer struct with the index path prefixed (a later
+assignment to the same key wins) -/
+def prefixInto (i : Nat) (fim later : List (Bytes × IdxEntry)) : List (Bytes × IdxEntry) :=
+  fim.foldl (fun im kf => kvInsert kf.1 { kf.2 with index := i :: kf.2.index } im) later
 
-/-- `indexType(rt)`; `rt.NumField()` panics when `rt` is not a struct (an embedded POINTER) -/
-def indexType : Nat → GoType → Option (List (Bytes × IdxEntry))
-  | 0, _ => none
-  | f + 1, t =>
-    match t with
-    | .struct _ _ fs => indexPass (indexType f) fs 0
+/-- a field that is not flattened: filed under its tag name or its name; `"-"` leaves it out -/
+def plainEntry (h : FieldHdr) (i : Nat) (later : List (Bytes × IdxEntry)) : List (Bytes × IdxEntry) :=
+  if !h.tag.isEmpty then
+    match indexKey h.name h.tag with
+    | none => later
+    | some k => kvInsert k ⟨h.name, [i], h.tag⟩ later
+  else kvInsert h.name ⟨h.name, [i], h.tag⟩ later
+
+mutual
+  def indexStruct : GoType → Option (List (Bytes × IdxEntry))
+    | .struct _ _ fs => some (indexFields fs 0)
     | _ => none
+  /-- the fields an embedded field contributes: since /repo b19f06c `indexType` looks through an embedded
+  POINTER (`et := f.Type; if et.Kind() == reflect.Ptr { et = et.Elem() }`) and flattens only when
+  `et` is a struct; `none`: the field is indexed like a named one -/
+  def indexEmb : GoType → Option (List (Bytes × IdxEntry))
+    | .struct _ _ fs => some (indexFields fs 0)
+    | .ptr e => indexStruct e
+    | _ => none
+  /-- the loop of `indexType` (from the last field to the first; a later assignment to the same key
+  wins) -/
+  def indexFields : List (FieldHdr × GoType) → Nat → List (Bytes × IdxEntry)
+    | [], _ => []
+    | (h, t) :: rest, i =>
+      if unexported h.name then indexFields rest (i + 1)                -- `0 < len(f.PkgPath)`
+      else
+        match (if h.embedded then indexEmb t else none) with
+        | some fim => prefixInto i fim (indexFields rest (i + 1))
+        | none => plainEntry h i (indexFields rest (i + 1))
+end
+
+/-- `indexType(rt)` for a struct type (the fuel argument is kept for the callers; the definition is
+by structural recursion and total since b19f06c: no embedded field makes it panic any more) -/
+def indexType (_ : Nat) : GoType → Option (List (Bytes × IdxEntry))
+  | .struct _ _ fs => some (indexFields fs 0)
+  | _ => none
 
 /-! ## registerComposer -/
 
@@ -237,6 +251,8 @@ def zeroVal : Nat → GoType → GoVal
     | .ptr _ => .nilPtr
     | .struct _ _ fs => .struct (fs.map fun ht => zeroVal f ht.2)
 
+def fuelZ : Nat := 64
+
 /-- the type of the field an index path leads to; `none`: `FieldByIndex` panics -/
 def typeAt : GoType → List Nat → Option GoType
   | t, [] => some t
@@ -248,7 +264,7 @@ def typeAt : GoType → List Nat → Option GoType
       | [] => some ht.2
       | _ :: _ =>
         match ht.2 with
-        | .ptr _ => none                                   -- a nil embedded pointer in a fresh value
+        | .ptr t' => typeAt t' rest                        -- `fieldByIndexAlloc` allocates a nil embedded pointer
         | t' => typeAt t' rest
   | _, _ :: _ => none
 
@@ -267,14 +283,22 @@ def listSet (l : List GoVal) (i : Nat) (x : GoVal) : List GoVal :=
   | _ :: r, 0 => x :: r
   | a :: r, i + 1 => a :: listSet r i x
 
-/-- `rv.FieldByIndex(index).Set(x)` on a struct value -/
-def setAt : GoVal → List Nat → GoVal → GoVal
-  | _, [], x => x
-  | .struct vs, i :: rest, x =>
-    match vs[i]? with
-    | none => .struct vs
-    | some old => .struct (listSet vs i (setAt old rest x))
-  | v, _ :: _, _ => v
+/-- `fieldByIndexAlloc(rv, index).Set(x)` on a struct value of type `t`: a nil embedded pointer on
+the way is allocated (`zero pt` is the zero value of its target) -/
+def setAt (zero : GoType → GoVal) : GoType → GoVal → List Nat → GoVal → GoVal
+  | _, _, [], x => x
+  | .struct _ _ fs, .struct vs, i :: rest, x =>
+    match fs[i]?, vs[i]? with
+    | some ht, some old =>
+      match rest with
+      | [] => .struct (listSet vs i x)
+      | _ :: _ =>
+        match ht.2, old with
+        | .ptr pt, .ptr y => .struct (listSet vs i (.ptr (setAt zero pt y rest x)))
+        | .ptr pt, _ => .struct (listSet vs i (.ptr (setAt zero pt (zero pt) rest x)))
+        | ft, y => .struct (listSet vs i (setAt zero ft y rest x))
+    | _, _ => .struct vs
+  | _, v, _ :: _, _ => v
 
 /-- what a slot receives: a value, a panic, or a conversion outside the model -/
 inductive Slot where
@@ -405,27 +429,28 @@ def isNull : JV → Bool
   | _ => false
 
 /-- the fields of a struct: for every index entry with a datum that is not nil, `setValue` -/
-def stepFields (setv : Registry → JV → GoType → IdxEntry → Step) (t : GoType) (vm : List (Bytes × JV)) :
-    Registry → List (Bytes × IdxEntry) → GoVal → Step
+def stepFields (zero : GoType → GoVal) (setv : Registry → JV → GoType → IdxEntry → Step) (t : GoType)
+    (vm : List (Bytes × JV)) : Registry → List (Bytes × IdxEntry) → GoVal → Step
   | r, [], cur => ⟨.ok cur, r⟩
   | r, (k, e) :: rest, cur =>
-    match typeAt t e.index with
-    | none => ⟨.panic, r⟩                                  -- FieldByIndex panics on a foreign index
-    | some ft =>
-      match fieldDatum vm k e with
-      | none => stepFields setv t vm r rest cur
-      | some m =>
-        if isNull m then stepFields setv t vm r rest cur
-        else if readOnlyAt t e.index then
-          -- only a foreign index leads to an unexported field; `Set` panics (a struct slot would only
-          -- panic further down: not modelled)
-          ⟨(match ft with | .struct _ _ _ => .outside | _ => .panic), r⟩
-        else
-          match setv r m ft e with
-          | ⟨.ok x, r'⟩ => stepFields setv t vm r' rest (setAt cur e.index x)
-          | st => st
+    -- since b19f06c the field is fetched only when there is a datum to store
+    match fieldDatum vm k e with
+    | none => stepFields zero setv t vm r rest cur
+    | some m =>
+      if isNull m then stepFields zero setv t vm r rest cur
+      else
+        match typeAt t e.index with
+        | none => ⟨.panic, r⟩                              -- a foreign index that leads nowhere
+        | some ft =>
+          if readOnlyAt t e.index then
+            -- only a foreign index leads to an unexported field; `Set` panics (a struct slot would only
+            -- panic further down: not modelled)
+            ⟨(match ft with | .struct _ _ _ => .outside | _ => .panic), r⟩
+          else
+            match setv r m ft e with
+            | ⟨.ok x, r'⟩ => stepFields zero setv t vm r' rest (setAt zero t cur e.index x)
+            | st => st
 
-def fuelZ : Nat := 64
 
 /-- Which composer `recomp` uses for a struct type: `c := r.composers[rv.Type().Name()]`, and when
 there is none `c, _ = r.registerComposer(rv.Type(), nil)`. With the repair (`bareName = false`) a
@@ -447,12 +472,15 @@ abbrev Rec := Registry → Nat → JV → GoType → Option IdxEntry → Step
 
 abbrev ComposerFor := Registry → Bytes → Bytes → List (FieldHdr × GoType) → Option Composer × Registry
 
-/-- `ev := reflect.New(et); r.recomp(x, ev)`: the slot receives the pointer (a nil datum leaves a
-pointer to the zero value) -/
+/-- a pointer slot (element of a slice, array or map; `setValue` on a pointer): since /repo 4344ad7 a
+nil datum leaves the nil pointer; otherwise `ev := reflect.New(et); r.recomp(x, ev)` and the slot
+receives the pointer -/
 def ptrStep (rec : Rec) (r : Registry) (x : JV) (pe : GoType) : Step :=
-  match rec r 1 x pe none with
-  | ⟨.ok v, r'⟩ => ⟨.ok (.ptr v), r'⟩
-  | st => st
+  if isNull x then ⟨.ok .nilPtr, r⟩
+  else
+    match rec r 1 x pe none with
+    | ⟨.ok v, r'⟩ => ⟨.ok (.ptr v), r'⟩
+    | st => st
 
 /-- the end of a walk over elements: the slot built from the values, or the first panic -/
 def listFinish (mk : List GoVal → GoVal) (res : (Option (List GoVal) × Slot) × Registry) : Step :=
@@ -527,11 +555,9 @@ def mapElemStep (rec : Rec) (e : GoType) (r : Registry) (x : JV) : Step :=
   | .ptr pe => ptrStep rec r x pe
   | _ => rec r 1 x e none
 
-/-- `rv.SetMapIndex(k, reflect.ValueOf(r.recompAny(m)))`: a nil `interface{}` value sets nothing -/
-def mapFinish (e : GoType) (ms : List (Bytes × GoVal)) : GoVal :=
-  match e with
-  | .iface => .map (ms.filter fun kv => match kv.2 with | .nilIface => false | _ => true)
-  | _ => .map ms
+/-- the map built from the members; since /repo f1da31f a nil `interface{}` value is kept as a member
+(`reflect.Zero(et)`), it no longer deletes the key -/
+def mapFinish (_ : GoType) (ms : List (Bytes × GoVal)) : GoVal := .map ms
 
 def recMap (rec : Rec) (r : Registry) (e : GoType) (j : JV) : Step :=
   match j with
@@ -545,7 +571,7 @@ def recStruct (cf : ComposerFor) (rec : Rec) (r : Registry) (name pkg : Bytes) (
     match cf r name pkg fs with
     | (none, r') => ⟨.panic, r'⟩
     | (some c, r') =>
-      stepFields (fun r'' m ft e => rec r'' 2 m ft (some e)) (.struct name pkg fs) vm r' c.indexes
+      stepFields (zeroVal fuelZ) (fun r'' m ft e => rec r'' 2 m ft (some e)) (.struct name pkg fs) vm r' c.indexes
         (zeroVal fuelZ (.struct name pkg fs))
   | _ => ⟨.panic, r⟩
 
@@ -556,8 +582,8 @@ def recBody (cf : ComposerFor) (ck : Bytes) (rec : Rec) : Rec := fun r mode j t 
   else
     match t with
     | .iface =>
-      -- `v = r.recompAny(v); rv.Set(reflect.ValueOf(v))`: a nil datum panics
-      if isNull j then ⟨.panic, r⟩ else rec r 0 j .iface none
+      -- `if v = r.recompAny(v); v != nil { rv.Set(reflect.ValueOf(v)) }` (f1da31f): nil stays the nil interface
+      if isNull j then ⟨.ok .nilIface, r⟩ else rec r 0 j .iface none
     | .ptr e =>
       -- setValue: `ev := reflect.New(elem); r.recomp(v, ev); rv.Set(ev)`
       ptrStep rec r j e
